@@ -153,6 +153,17 @@ def be32 : Bytes → Nat
 def unpackI (raw : Bytes) : Outcome Int :=
   if raw.length = 4 then .ok ((be32 raw : Nat) : Int) else .escape .structError
 
+/-- `struct.pack(">I", n)`: struct.error outside 0 .. 2^32-1 -/
+def packI (n : Int) : Outcome Bytes :=
+  if 0 ≤ n ∧ n < 4294967296 then
+    .ok [n.toNat / 16777216 % 256, n.toNat / 65536 % 256, n.toNat / 256 % 256, n.toNat % 256]
+  else .escape .structError
+
+/-- `f.write(b)` on an in-memory binary file (`io.BytesIO`, or a file opened 'wb') at position `pos ≤ len`:
+    overwrite, extend, advance -/
+def fwrite (data : Bytes) (pos : Int) (b : Bytes) : Bytes × Int :=
+  (data.take pos.toNat ++ b ++ data.drop (pos.toNat + b.length), pos + (b.length : Int))
+
 /-- `f.read(n)` on a byte source: the next `n` bytes and the rest (`n < 0`: everything) -/
 def readN (src : Bytes) (n : Int) : Bytes × Bytes :=
   if n < 0 then (src, []) else (src.take n.toNat, src.drop n.toNat)
